@@ -73,18 +73,16 @@ def _bulk(v):
     return v[1].decode("latin1") if v[0] in ("$", "+") and v[1] is not None else None
 
 
-def read_key(c, kind, key, got=lambda: None):
+def read_key(c, kind, key):
     """Observed value of a key through one node: canonical python value, or ('error', text)."""
     if kind == "string":
         r = c.cmd("GET", key, timeout=CMD_TIMEOUT)
-        got()
         if r[0] == "-":
             return ("error", r[1].decode("latin1", "replace"))
         return _bulk(r)
     cmdv = {"list": ["LRANGE", key, "0", "-1"], "hash": ["HGETALL", key], "set": ["SMEMBERS", key],
             "zset": ["ZRANGE", key, "0", "-1", "WITHSCORES"], "stream": ["XRANGE", key, "-", "+"]}[kind]
     r = c.cmd(*cmdv, timeout=CMD_TIMEOUT)
-    got()
     if r[0] == "-":
         return ("error", r[1].decode("latin1", "replace"))
     items = r[1] or []
@@ -326,9 +324,10 @@ class Runner:
     def note(self, k, v):
         self.res["facts"][k] = v
 
-    def inconclusive(self, why):
+    def inconclusive(self, why, code=""):
         self.res["outcome"] = "inconclusive"
         self.res["why"] = why
+        self.res["why_code"] = code
         return self.res
 
     def violation(self, branch, kind, detail, what, extra=None):
@@ -562,7 +561,7 @@ class Runner:
         # the other two come back first and move on; then the survivor rejoins
         for nd in others:
             cl.start_node(nd)
-        ok, dead = self.wait_serving(others, 60)
+        ok, dead = self.wait_serving(others, max(40.0, 6.0 * self.res["facts"].get("boot_s", 5.0)))
         if not ok:
             return self.unavailable(dead, "others after restart")
         for _ in range(3):
@@ -599,7 +598,7 @@ class Runner:
             self.violation(self.sc["cls"], "unavailable", norm_line(c["line"]),
                            "node %d does not come back (%s): exit code %s: %s" % (own[0].id, when, c["rc"], c["line"]), {"cause": c})
             return self.res
-        return self.inconclusive("not serving %s although every process is alive" % when)
+        return self.inconclusive("not serving %s although every process is alive" % when, "unserved")
 
     def recover_and_check(self, orc):
         sc = self.sc
@@ -632,14 +631,15 @@ class Runner:
         for i in order:
             cl.start_node(cl.nodes[i])
             time.sleep(sc.get("restart_gap", 0.0))
-        ok, dead = self.wait_serving(cl.nodes, sc.get("recover_s", 75))
+        # allowance scaled by how long this cluster took to boot on this (possibly loaded) machine
+        allow = max(40.0, 6.0 * self.res["facts"].get("boot_s", 5.0))
+        ok, dead = self.wait_serving(cl.nodes, allow)
+        if not ok and not dead:
+            ok, dead = self.wait_serving(cl.nodes, allow)     # slow election under load: once more
         if not ok:
             if dead:
                 return self.unavailable(dead, "after restart")
-            # slow election under load: one more generous wait before giving up (never a verdict)
-            ok, dead = self.wait_serving(cl.nodes, 60)
-            if not ok:
-                return self.unavailable(dead, "after restart") if dead else self.inconclusive("cluster did not serve within 135 s after the restart")
+            return self.inconclusive("cluster did not serve within %.0f s after the restart although every process is alive" % (2 * allow), "unserved")
         self.note("recovered_s", round(time.time() - self.t0, 1))
         # read every acknowledged key through every node's own port
         keys = orc.keys()
